@@ -1,7 +1,207 @@
 import CB.Driver.Util
-namespace CB
+import CB.Model.Rand
+namespace CB.Rand
+open CB
 
-/-- operations of property C19 (op names start with `c19.`) -/
-def dispatchC19 : Dispatch := fun _ _ => none
+/-- how an RNG failure is reported by the harness: `try_*` on the fallible fixture, infallible API on
+    the panicking fixture (`exhausted`), panicking wrapper (`.expect`) -/
+inductive ErrMode where
+  | tryErr | exhausted | panics
+
+def showOut {α : Type} (mode : ErrMode) (sh : α → String) : Out α → String
+  | .ok v r => s!"{sh v} {r.used}"
+  | .rngErr r =>
+    match mode with
+    | .tryErr => s!"err:RandCore {r.used}"
+    | .exhausted => s!"exhausted {r.used}"
+    | .panics => "panic"
+  | .fuel => "model-out-of-fuel"
+
+def showBits (mode : ErrMode) (sh : List Nat → String) : BitsRes → String
+  | .out o => showOut mode sh o
+  | .precisionMismatch bp ib =>
+    match mode with
+    | .panics => "panic"
+    | _ => s!"err:BitsPrecisionMismatch {bp} {ib} 0"
+  | .bitLengthTooLarge bl bp =>
+    match mode with
+    | .panics => "panic"
+    | _ => s!"err:BitLengthTooLarge {bl} {bp} 0"
+
+def rng0 (bs : List Nat) : Rng := ⟨bs, 0⟩
+/-- every loop iteration of every sampler consumes at least one byte -/
+def fuelFor (bs : List Nat) : Nat := bs.length + 2
+
+/-- L0 line for modular sampling (value-level rejection sampling on the word stream) -/
+def specModLine (mode : ErrMode) (sh : Nat → String) (m : Nat) (bs : List Nat) : String :=
+  match specRandomMod (bs.length + 2) m bs with
+  | some (v, u) => s!"{sh v} {u}"
+  | none =>
+    let u := 8 * (bs.length / 8)
+    match mode with
+    | .tryErr => s!"err:RandCore {u}"
+    | .exhausted => s!"exhausted {u}"
+    | .panics => "panic"
+
+/-- L0 line for bit-bounded sampling -/
+def specBitsLine (mode : ErrMode) (sh : Nat → String) (bl : Nat) (bs : List Nat) : String :=
+  match specRandomBits bl bs with
+  | some v => s!"{sh v} {bitsBytes bl}"
+  | none =>
+    match mode with
+    | .panics => "panic"
+    | _ => s!"err:RandCore {8 * min ((bl + 63) / 64 - 1) (bs.length / 8)}"
+
+/-- L0 line for `Limb::random_mod` -/
+def specLimbLine (mode : ErrMode) (m : Nat) (bs : List Nat) : String :=
+  match specLimbRandomMod (bs.length + 2) m bs with
+  | some (v, u) => s!"{natToHex v} {u}"
+  | none =>
+    let nb := (bitLen m + 7) / 8
+    let u := nb * (bs.length / nb)
+    match mode with
+    | .tryErr => s!"err:RandCore {u}"
+    | .exhausted => s!"exhausted {u}"
+    | .panics => "panic"
+
+def both (l1 l0 : String) : String := s!"{l1} ;; {l0}"
+
+/-- moduli of the `impl_modulus!` instances in harness/src/ops/c19.rs: (limbs, value) -/
+def cmfModulus : String → Option (Nat × Nat)
+  | "0" => some (1, 0xffffffff00000001)
+  | "1" => some (2, 0x1000000000000000d)
+  | "2" => some (4, 0x73eda753299d7d483339d80809a1d80553bda402fffe5bfeffffffff00000001)
+  | "3" => some (4, 0xffffffffffffffffffffffffffffffffffffffffffffffffffffffffffffff43)
+  | "4" => some (1, 3)
+  | _ => none
+
+def widthOk (n : Nat) : Bool := n = 1 || n = 2 || n = 3 || n = 4 || n = 8
+
+def boxedLen (n : Nat) (v : Nat) : String := s!"{n}:{natToHex v}"
+
+end CB.Rand
+
+namespace CB
+open CB.Rand
+
+def dispatchC19 : Dispatch := fun op args =>
+  -- fixed-width modular sampling
+  let modOp (mode : ErrMode) (boxedOut : Bool) (n m s : String) : Option String :=
+    match n.toNat?, hexToNat? m, tokToBytes? s with
+    | some n, some m, some bs =>
+      if m = 0 ∨ m ≥ B ^ n ∨ n = 0 then badArgs
+      else if !boxedOut && !widthOk n then some "unsupported-width"
+      else
+        let ml := toLimbs n m
+        if boxedOut then
+          some (both (showOut mode limbsHexLen (boxedRandomMod (fuelFor bs) (rng0 bs) ml))
+                     (specModLine mode (boxedLen n) m bs))
+        else
+          some (both (showOut mode limbsHex (uintRandomMod (fuelFor bs) (rng0 bs) ml))
+                     (specModLine mode natToHex m bs))
+    | _, _, _ => badArgs
+  let bitsOp (mode : ErrMode) (n bl : String) (bp : Option String) (s : String) : Option String :=
+    match n.toNat?, bl.toNat?, tokToBytes? s with
+    | some n, some bl, some bs =>
+      if !widthOk n then some "unsupported-width" else
+      match bp with
+      | none =>
+        let l1 := showBits mode limbsHex (uintRandomBits (rng0 bs) n bl)
+        if bl ≤ 64 * n then some (both l1 (specBitsLine mode natToHex bl bs)) else some l1
+      | some bp =>
+        match bp.toNat? with
+        | some bp =>
+          let l1 := showBits mode limbsHex (uintRandomBitsWP (rng0 bs) n bl bp)
+          if bp = 64 * n ∧ bl ≤ 64 * n then some (both l1 (specBitsLine mode natToHex bl bs)) else some l1
+        | none => badArgs
+    | _, _, _ => badArgs
+  let bbitsOp (mode : ErrMode) (bl : String) (bp : Option String) (s : String) : Option String :=
+    match bl.toNat?, tokToBytes? s with
+    | some bl, some bs =>
+      match bp with
+      | none =>
+        let n := (zeroWithPrecision bl).length
+        some (both (showBits mode limbsHexLen (boxedRandomBits (rng0 bs) bl)) (specBitsLine mode (boxedLen n) bl bs))
+      | some bp =>
+        match bp.toNat? with
+        | some bp =>
+          let l1 := showBits mode limbsHexLen (boxedRandomBitsWP (rng0 bs) bl bp)
+          let n := (zeroWithPrecision bp).length
+          if bl ≤ bp then some (both l1 (specBitsLine mode (boxedLen n) bl bs)) else some l1
+        | none => badArgs
+    | _, _ => badArgs
+  let randOp (mode : ErrMode) (n s : String) (f : Rng → Nat → List Nat → Out (List Nat)) : Option String :=
+    match n.toNat?, tokToBytes? s with
+    | some n, some bs =>
+      if !widthOk n then some "unsupported-width"
+      else some (showOut mode limbsHex (f (rng0 bs) n bs))
+    | _, _ => badArgs
+  match op, args with
+  | "c19.u.random_mod", [n, m, s] => modOp .exhausted false n m s
+  | "c19.u.try_random_mod", [n, m, s] => modOp .tryErr false n m s
+  | "c19.b.random_mod", [n, m, s] => modOp .exhausted true n m s
+  | "c19.b.try_random_mod", [n, m, s] => modOp .tryErr true n m s
+  | "c19.u.random", [n, s] => randOp .exhausted n s fun r n _ => uintRandom r n
+  | "c19.u.try_random", [n, s] => randOp .tryErr n s fun r n _ => uintRandom r n
+  | "c19.i.random", [n, s] => randOp .exhausted n s fun r n _ => uintRandom r n
+  | "c19.i.try_random", [n, s] => randOp .tryErr n s fun r n _ => uintRandom r n
+  | "c19.wrapping.random", [n, s] => randOp .exhausted n s fun r n _ => uintRandom r n
+  | "c19.nz.random", [n, s] => randOp .exhausted n s fun r n bs => nonZeroUintRandom (fuelFor bs) r n
+  | "c19.nz.try_random", [n, s] => randOp .tryErr n s fun r n bs => nonZeroUintRandom (fuelFor bs) r n
+  | "c19.odd.random", [n, s] => randOp .exhausted n s fun r n _ => oddUintRandom r n
+  | "c19.odd.try_random", [n, s] => randOp .tryErr n s fun r n _ => oddUintRandom r n
+  | "c19.u.try_random_bits", [n, bl, s] => bitsOp .tryErr n bl none s
+  | "c19.u.try_random_bits_wp", [n, bl, bp, s] => bitsOp .tryErr n bl (some bp) s
+  | "c19.u.random_bits", [n, bl, s] => bitsOp .panics n bl none s
+  | "c19.u.random_bits_wp", [n, bl, bp, s] => bitsOp .panics n bl (some bp) s
+  | "c19.i.try_random_bits", [n, bl, s] => bitsOp .tryErr n bl none s
+  | "c19.i.try_random_bits_wp", [n, bl, bp, s] => bitsOp .tryErr n bl (some bp) s
+  | "c19.b.try_random_bits", [bl, s] => bbitsOp .tryErr bl none s
+  | "c19.b.try_random_bits_wp", [bl, bp, s] => bbitsOp .tryErr bl (some bp) s
+  | "c19.b.random_bits", [bl, s] => bbitsOp .panics bl none s
+  | "c19.b.random_bits_wp", [bl, bp, s] => bbitsOp .panics bl (some bp) s
+  | "c19.oddb.random", [bl, s] =>
+    match bl.toNat?, tokToBytes? s with
+    | some bl, some bs => some (showBits .panics limbsHexLen (oddBoxedRandom (rng0 bs) bl))
+    | _, _ => badArgs
+  | "c19.l.random", [s] =>
+    match tokToBytes? s with
+    | some bs => some (showOut .exhausted natToHex (limbRandom (rng0 bs)))
+    | none => badArgs
+  | "c19.l.try_random", [s] =>
+    match tokToBytes? s with
+    | some bs => some (showOut .tryErr natToHex (limbRandom (rng0 bs)))
+    | none => badArgs
+  | "c19.nzl.random", [s] =>
+    match tokToBytes? s with
+    | some bs => some (showOut .exhausted natToHex (nonZeroLimbRandom (fuelFor bs) (rng0 bs)))
+    | none => badArgs
+  | "c19.l.random_mod", [m, s] =>
+    match hexToNat? m, tokToBytes? s with
+    | some m, some bs =>
+      if m = 0 ∨ m ≥ B then badArgs
+      else some (both (showOut .exhausted natToHex (limbRandomMod (fuelFor bs) (rng0 bs) m)) (specLimbLine .exhausted m bs))
+    | _, _ => badArgs
+  | "c19.l.try_random_mod", [m, s] =>
+    match hexToNat? m, tokToBytes? s with
+    | some m, some bs =>
+      if m = 0 ∨ m ≥ B then badArgs
+      else some (both (showOut .tryErr natToHex (limbRandomMod (fuelFor bs) (rng0 bs) m)) (specLimbLine .tryErr m bs))
+    | _, _ => badArgs
+  | "c19.cmf.random", [id, s] =>
+    match cmfModulus id, tokToBytes? s with
+    | some (n, m), some bs =>
+      some (both (showOut .exhausted limbsHex (constMontyRandom (fuelFor bs) (rng0 bs) (toLimbs n m)))
+                 (specModLine .exhausted natToHex m bs))
+    | _, _ => badArgs
+  | "c19.cmf.try_random", [id, s] =>
+    match cmfModulus id, tokToBytes? s with
+    | some (n, m), some bs =>
+      some (both (showOut .tryErr limbsHex (constMontyRandom (fuelFor bs) (rng0 bs) (toLimbs n m)))
+                 (specModLine .tryErr natToHex m bs))
+    | _, _ => badArgs
+  -- statistical sanity run of the real crate: the property demands `ok`
+  | "c19.chi2", [_, _, _, _] => some "ok"
+  | _, _ => none
 
 end CB
